@@ -27,6 +27,9 @@
 (*          and one negative control (never present in the pinned tree):                          *)
 (*            "CLONE"  a memory-cache hit gets a copy of the entry's header; without it the        *)
 (*                     filters behind the Proxy write into the cached entry                       *)
+(*            "MULTI"  the gunzip reader of the adaptors (readers.GZipDecompressReader) reads ALL    *)
+(*                     members of a gzip body (RFC 1952: a gzip file is a series of members);       *)
+(*                     without it it stops after the first member and delivers a prefix             *)
 (*                                                                                              *)
 (* What "path unchanged" means (property text: "the backend receives the client's method, path, *)
 (* raw query ... unchanged"):  the request-target is split at the first "?"; the raw query must  *)
@@ -251,12 +254,22 @@ Outcome(x) ==
    length it was cut to, bad = reading it ends with an error instead of EOF (the source broke off);
    a bad payload is always a cut one, and every recoding of it (gzip reader, gunzip reader) is bad
    again: the compress reader passes the error on before it writes the gzip trailer *)
-Payload(id, n, layers, gzd) == [id |-> id, n |-> n, layers |-> layers, gzd |-> gzd, trunc |-> -1, bad |-> FALSE]
+(* mem = number of gzip MEMBERS the sender made its gzip layer of (RFC 1952 2.2: "a gzip file consists of
+   a series of members"; cat a.gz b.gz, pigz, one member per flush): the content is the concatenation of
+   the members' contents.  It describes the gzip layer the message was sent with and is 1 again once that
+   layer is undone (what easegress compresses itself is one member).  part = only the content of the first
+   member is left (a gunzip that stops at the end of the first member: negative control "MULTI"). *)
+Payload(id, n, layers, gzd) == [id |-> id, n |-> n, layers |-> layers, gzd |-> gzd, trunc |-> -1, bad |-> FALSE, mem |-> 1, part |-> FALSE]
+Members(p, k) == [p EXCEPT !.mem = k]
 EmptyP == Payload("-", 0, 0, 7)
 FullLen(p) == p.n + p.layers * (IF p.n = 0 THEN 7 ELSE p.gzd)
 BLen(p) == IF p.trunc >= 0 THEN p.trunc ELSE FullLen(p)
 Gz(p)   == IF p.bad THEN [p EXCEPT !.layers = @ + 1, !.trunc = BLen(p)] ELSE [p EXCEPT !.layers = @ + 1]
-Gunz(p) == IF p.bad THEN [p EXCEPT !.layers = @ - 1, !.trunc = BLen(p)] ELSE [p EXCEPT !.layers = @ - 1]
+(* undoing a gzip layer = all its members (Go's compress/gzip reader, multistream) *)
+Gunz(p) == IF p.bad THEN [p EXCEPT !.layers = @ - 1, !.trunc = BLen(p), !.mem = 1] ELSE [p EXCEPT !.layers = @ - 1, !.mem = 1]
+(* readers.GZipDecompressReader (RequestAdaptor / ResponseAdaptor decompress) *)
+GunzBy(p, Fixed) == IF "MULTI" \in Fixed \/ p.mem = 1 THEN Gunz(p)
+                    ELSE [Gunz(p) EXCEPT !.part = TRUE, !.n = p.n \div p.mem]
 CanGunz(p) == p.layers > 0 /\ p.trunc < 0        \* gzip.NewReader + ReadAll succeed
 CutShort(p) == [p EXCEPT !.trunc = FullLen(p) - 1, !.bad = TRUE]     \* the sender stops one byte (at least) early
 
@@ -283,7 +296,15 @@ Paths == << <<47, 97, 98>>,                         \*  1 /ab
             <<47, 97, 59, 98, 44, 99>>,             \* 10 /a;b,c
             <<47, 97, 37, 67, 51, 37, 65, 57>>,     \* 11 /a%C3%A9
             <<47, 97, 33, 98>>,                     \* 12 /a!b
-            <<47, 97, 37, 50, 102, 98>> >>          \* 13 /a%2fb     lower-case hex digits
+            <<47, 97, 37, 50, 102, 98>>,            \* 13 /a%2fb     lower-case hex digits
+            \* empty and dot segments: a path is a sequence of segments, an empty one ("//") and "." / ".." are
+            \* segments like any other to a proxy ("path unchanged"; only the origin server interprets them)
+            <<47, 47, 97, 98>>,                     \* 14 //ab       the path starts with an empty segment
+            <<47, 47, 47>>,                         \* 15 ///        nothing but empty segments
+            <<47, 47, 37, 50, 70, 47, 120>>,        \* 16 //%2F/x    empty segment, then an escaped slash
+            <<47, 97, 47, 47, 98>>,                 \* 17 /a//b      empty segment inside
+            <<47, 97, 98, 47, 47>>,                 \* 18 /ab//      empty segments at the end
+            <<47, 97, 47, 46, 47, 46, 46, 47, 98>> >>   \* 19 /a/./../b  dot segments
 Queries == << <<>>, <<113, 61, 49>>, <<97, 61, 37, 51, 70, 38, 97, 61, 50>> >>   \* "", q=1, a=%3F&a=2
 
 (* body settings of a Request/ResponseAdaptor that the filters accept (Init panics on compress together
@@ -300,12 +321,24 @@ MaxAttempts == 3      \* of the retry policy attached to the pool when first att
 AddrKinds == {"ip", "ip6", "ip-np", "ip6-np", "name"}
 AddrIsName(a) == a = "name"         \* Server.checkAddrPattern: the port (if any) and the brackets are stripped, net.ParseIP decides
 
-ReqScn == { s \in [addr : AddrKinds, keepHost : BOOLEAN,
+(* load balancing policy of the pool (loadBalance.policy; "default": no loadBalance section; "weightedRandom":
+   every server has a weight, "weightedRandom0": none has - ServerPoolSpec.Validate accepts both; "headerHash":
+   keyed by a header the client sends).  The balancer only SELECTS the server of an attempt: no clause and no
+   stage operator depends on the policy - whichever server it selects, the request must reach it faithfully
+   and the Host rule is that server's.  It is explored with the dimensions of the pool and its servers
+   (address kind, keepHost, request mode, failing attempts); the dimensions of the message keep their
+   defaults then (prepareRequest treats them independently of the server). *)
+LBKinds == {"default", "roundRobin", "random", "weightedRandom", "weightedRandom0", "ipHash", "headerHash"}
+
+ReqScn == { s \in [addr : AddrKinds, keepHost : BOOLEAN, lb : LBKinds,
                    ra : AdaptorKinds, rahdr : BOOLEAN, reqMode : {"buf", "stream"},
                    path : 1..Len(Paths), query : 1..Len(Queries), hshape : {"min", "rich"},
                    rbody : {"none", "cl", "chunked"}, renc : {"identity", "gzip"},
+                   rmem : {1, 2},                         \* gzip members of the client's body
                    fails : 0..(MaxAttempts - 1)] :        \* attempts that fail before one succeeds
             /\ s.rbody = "none" => s.renc = "identity"
+            /\ s.rmem > 1 => s.renc = "gzip"
+            /\ s.lb # "default" => (s.path = 1 /\ s.query = 1 /\ s.hshape = "min" /\ s.ra = "none" /\ ~s.rahdr /\ s.rmem = 1)
             /\ s.fails > 0 => s.reqMode = "buf" }         \* a stream request is never retried (by design)
 
 (* cache: the pool has a memoryCache that admits the request's method and the backend's status; the
@@ -315,8 +348,10 @@ RespK == 3
 RespScn == { s \in [comp : {"off", "low", "high"}, rsa : AdaptorKinds, rsahdr : BOOLEAN,
                     respMode : {"buf", "stream"}, ae : {"absent", "gzip", "identity"}, head : BOOLEAN,
                     status : {200, 304, 404, 503}, bframing : {"cl", "chunked", "close"}, benc : {"identity", "gzip"},
-                    bsize : {0, 10, 100}, gzd : {-3, 7}, cache : BOOLEAN, short : BOOLEAN] :
+                    bsize : {0, 10, 100}, gzd : {-3, 7}, cache : BOOLEAN, short : BOOLEAN,
+                    bmem : {1, 2}] :                       \* gzip members of the backend's body
              /\ s.short => (s.bframing = "cl" /\ s.bsize > 0 /\ ~s.head /\ ~s.cache /\ s.status # 304)
+             /\ s.bmem > 1 => (s.benc = "gzip" /\ s.bsize > 0 /\ s.status # 304)
              \* 304 (Not Modified): a response that has no body whatever the method; the headers may still describe the
              \* representation (Content-Length, Content-Encoding); bsize is only the length it declares
              /\ s.status = 304 => s.bsize = 10 }
@@ -329,23 +364,25 @@ Reqs(s) == IF s.cache THEN RespK ELSE 1
    that break off are explored sequentially only. *)
 ParDegrees == <<2, 3, 4>>
 ParScn == {s \in RespScn : ~s.short}
-ParScnQuick == {s \in ParScn : s.gzd = 7 /\ s.status = 200 /\ ~s.rsahdr /\ s.bsize = 100 /\ s.bframing # "close"}
-ParScnFull  == {s \in ParScn : s.gzd = 7 /\ s.status = 200}
+ParScnQuick == {s \in ParScn : s.gzd = 7 /\ s.status = 200 /\ ~s.rsahdr /\ s.bsize = 100 /\ s.bframing # "close" /\ s.bmem = 1}
+ParScnFull  == {s \in ParScn : s.gzd = 7 /\ s.status = 200 /\ s.bmem = 1}
 
-DefaultReqScn == [addr |-> "ip", keepHost |-> FALSE, ra |-> "none", rahdr |-> FALSE, reqMode |-> "buf", path |-> 1,
-                  query |-> 1, hshape |-> "min", rbody |-> "none", renc |-> "identity", fails |-> 0]
+DefaultReqScn == [addr |-> "ip", keepHost |-> FALSE, lb |-> "default", ra |-> "none", rahdr |-> FALSE, reqMode |-> "buf", path |-> 1,
+                  query |-> 1, hshape |-> "min", rbody |-> "none", renc |-> "identity", rmem |-> 1, fails |-> 0]
 DefaultRespScn == [comp |-> "off", rsa |-> "none", rsahdr |-> FALSE, respMode |-> "buf", ae |-> "absent", head |-> FALSE,
                    status |-> 200, bframing |-> "cl", benc |-> "identity", bsize |-> 10, gzd |-> 7, cache |-> FALSE,
-                   short |-> FALSE]
+                   short |-> FALSE, bmem |-> 1]
 
 (* quick tier: the path/query dimension is explored with the other request dimensions at their
    default and vice versa (prepareRequest treats them independently); one gzip size delta; the
    status class only with the other response dimensions at their default *)
-ReqScnQuick == {s \in ReqScn : (s.path = 1 /\ s.query = 1)
-                               \/ [s EXCEPT !.path = 1, !.query = 1] = DefaultReqScn}
-RespScnQuick == {s \in RespScn : s.gzd = 7 /\ (s.status = 200 \/ [s EXCEPT !.status = 200] = DefaultRespScn
+ReqScnQuick == {s \in ReqScn : /\ (s.path = 1 /\ s.query = 1) \/ [s EXCEPT !.path = 1, !.query = 1] = DefaultReqScn
+                               /\ s.lb # "default" => s.rbody = "none"}
+(* (bodies of several gzip members: with the ResponseAdaptor's header operations off and a 200) *)
+MultiQuick(s) == s.bmem > 1 => (~s.rsahdr /\ s.status = 200)
+RespScnQuick == {s \in RespScn : s.gzd = 7 /\ MultiQuick(s) /\ (s.status = 200 \/ [s EXCEPT !.status = 200] = DefaultRespScn
                                                \/ (s.status = 304 /\ ~s.rsahdr /\ ~s.cache))}
-RespScnGenQuick == {s \in RespScn : s.gzd = 7}
+RespScnGenQuick == {s \in RespScn : s.gzd = 7 /\ MultiQuick(s)}
 
 (* the media type a message is labelled with (Content-Type).  No clause of C03 or C07 mentions it: the
    contract is the same for every value, and the stage operators never look at it.  It is a dimension of
@@ -371,7 +408,7 @@ HopHdrs == {H("connection", <<"x-l1, close">>), H("x-l1", <<"listed">>), H("keep
 (* the request as the client writes it *)
 ClientReq(s) ==
     LET p == IF s.rbody = "none" THEN EmptyP
-             ELSE Payload("c-body", 10, IF s.renc = "gzip" THEN 1 ELSE 0, 7) IN
+             ELSE Members(Payload("c-body", 10, IF s.renc = "gzip" THEN 1 ELSE 0, 7), s.rmem) IN
     [method |-> "M", host |-> ClientHost,
      target |-> Paths[s.path] \o (IF Queries[s.query] = <<>> THEN <<>> ELSE <<63>> \o Queries[s.query]),
      hdr |-> (IF s.hshape = "min" THEN {H("x-e1", <<"1">>)} ELSE E2EHdrs \cup HopHdrs)
@@ -389,12 +426,12 @@ S_Server(c, s) ==
 
 (* RequestAdaptor.Handle, in the order of the code: header operations, body (drops the
    Content-Encoding label), compress (only an unlabelled body), decompress (only a gzip label) *)
-S_ReqAdaptor(m, s) ==
+S_ReqAdaptor(m, s, Fixed) ==
     LET m1 == IF s.rahdr THEN [m EXCEPT !.hdr = {h \in @ : h.n # "x-ra-del"} \cup {H("x-ra-set", <<"s">>)}] ELSE m
         m2 == IF ReplacesBody(s.ra) THEN [m1 EXCEPT !.payload = ReqBodyCfg, !.label = "", !.stream = FALSE] ELSE m1
         m3 == IF Compresses(s.ra) /\ m2.label = "" THEN [m2 EXCEPT !.payload = Gz(@), !.label = "gzip"] ELSE m2
     IN IF Decompresses(s.ra) /\ m3.label = "gzip" /\ CanGunz(m3.payload)
-       THEN [m3 EXCEPT !.payload = Gunz(@), !.label = ""] ELSE m3
+       THEN [m3 EXCEPT !.payload = GunzBy(@, Fixed), !.label = ""] ELSE m3
 
 (* serverPoolContext.prepareRequest, once per attempt: URL text, cloneHeader, Host rule, a fresh reader
    on the buffered payload (Request.GetPayload); then http.NewRequest parses the text again and the
@@ -416,7 +453,7 @@ CAbs(c) == [method |-> c.method, target |-> c.target, host |-> c.host, hdr |-> c
 
 (* the requests the backends receive: the first s.fails attempts are answered with a failure (a status
    listed in failureCodes, or the connection breaks), the retry policy makes the pool try again *)
-Attempt(s, Fixed, n) == S_Prepare(S_ReqAdaptor(S_Server(ClientReq(s), s), s), s, Fixed, n)
+Attempt(s, Fixed, n) == S_Prepare(S_ReqAdaptor(S_Server(ClientReq(s), s), s, Fixed), s, Fixed, n)
 RunReq(s, Fixed) == {b \in {Attempt(s, Fixed, n) : n \in 1..(s.fails + 1)} : b.reached}
 
 (* ---- response direction ---- *)
@@ -424,7 +461,7 @@ RespHdrs == {H("x-b1", <<"1">>), H("set-cookie", <<"a=1", "b=2">>), H("x-rsa-del
 RespHdrsTouched == (RespHdrs \ {H("x-rsa-del", <<"1">>)}) \cup {H("x-rsa-set", <<"s">>)}
 
 (* the response as the backend writes it *)
-BackendFull(s) == Payload("b-body", s.bsize, IF s.benc = "gzip" THEN 1 ELSE 0, s.gzd)      \* the body the backend means to send
+BackendFull(s) == Members(Payload("b-body", s.bsize, IF s.benc = "gzip" THEN 1 ELSE 0, s.gzd), s.bmem)      \* the body the backend means to send
 BackendResp(s) ==
     LET p == BackendFull(s) IN
     [status |-> s.status, kept |-> TRUE, payload |-> IF s.short THEN CutShort(p) ELSE p, label |-> IF s.benc = "gzip" THEN "gzip" ELSE "",
@@ -493,8 +530,8 @@ S_RespAdaptor(r, s, Fixed) ==
               ELSE r2
     IN IF r.failed THEN r
        ELSE IF Decompresses(s.rsa) /\ r3.label = "gzip" /\ (CanGunz(r3.payload) \/ (r3.streamed /\ r3.payload.layers > 0))
-            THEN [r3 EXCEPT !.payload = Gunz(@), !.label = "",
-                            !.clhdr = IF r3.streamed THEN -1 ELSE BLen(Gunz(r3.payload))]
+            THEN [r3 EXCEPT !.payload = GunzBy(@, Fixed), !.label = "",
+                            !.clhdr = IF r3.streamed THEN -1 ELSE BLen(GunzBy(r3.payload, Fixed))]
             ELSE r3
 
 (* mux write-out + net/http server: headers copied, WriteHeader, io.Copy.  With a declared
